@@ -181,6 +181,19 @@ func (fc *fnCtx) specEnv(st *State, extra map[string]Val) *SpecEnv {
 			}
 		}
 	}
+	// rangeindexK: the hidden index of range loop number K (to name an OUTER loop's index inside an inner loop)
+	for _, li := range t.loopInfo {
+		if li.header.Comment != "rangeindex.loop" || len(li.header.Instrs) == 0 || li.header.Parent() != fc.fn {
+			continue
+		}
+		if ld, ok := li.header.Instrs[0].(*ssa.UnOp); ok {
+			if a, ok := ld.X.(*ssa.Alloc); ok && a.Comment == "rangeindex" {
+				if v, ok := st.cells[a]; ok && v != "" {
+					env.vars[fmt.Sprintf("rangeindex%d", li.ordinal)] = Val{T: v, Ty: a.Type().(*types.Pointer).Elem()}
+				}
+			}
+		}
+	}
 	// escaping locals live in the heap
 	for _, a := range sortedAllocs(fc.escaping) {
 		if a.Comment == "" {
